@@ -98,7 +98,12 @@ def execute_enumeration(spec):
             support = [i for i, x in enumerate(d["p"]) if x > 0]
             path.append((support, d["i"]))
             prob *= d["p"][d["i"]]
-        key = out.smiles if out.exc is None and out.smiles else "exception:" + type(out.exc).__name__
+        key = "exception:" + type(out.exc).__name__
+        if out.exc is None and out.smiles:
+            try:
+                key = refgen.flat_smiles(out.result.mol)
+            except Exception:
+                key = out.smiles
         real[key] = real.get(key, 0.0) + prob
         digests.append(out.world.digest())
         # next path: advance the last decision that still has an untried option
